@@ -238,9 +238,11 @@ def class_decl(draw, lang, names):
 
 
 @st.composite
-def library(draw, lang=None, max_decls=8, with_python=None, with_lua=None, features=None):
+def library(draw, lang=None, max_decls=8, with_python=None, with_lua=None, features=None, must=None):
     """features: subset of {'class','enum','struct','namespace','overload','default',
     'template','generic'} or None for all admitted ones."""
+    if lang is None and must and must not in ("enum", "struct", "generic"):
+        lang = "c++"            # (the required kind of declaration exists in C++ libraries only)
     lang = lang or draw(st.sampled_from(["c++", "c++", "c"]))
     feats = features if features is not None else (
         {"class", "enum", "struct", "namespace", "overload", "default", "template", "generic"}
@@ -256,6 +258,7 @@ def library(draw, lang=None, max_decls=8, with_python=None, with_lua=None, featu
     if lang == "c++" and draw(st.booleans()):
         lib["namespace"] = "ns" + lib["library"].lower()
     n = draw(st.integers(2, max_decls))
+    must_pos = draw(st.integers(0, n - 1)) if must else -1
     for i in range(n):
         kinds = ["func", "func", "func"]
         for k in ("class", "enum", "struct", "namespace", "overload", "default", "template", "generic"):
@@ -264,6 +267,11 @@ def library(draw, lang=None, max_decls=8, with_python=None, with_lua=None, featu
         if "class" in feats and not any(d["kind"] == "classpair" for d in lib["decls"]):
             kinds.append("classpair")
         k = draw(st.sampled_from(kinds))
+        if i == must_pos and (must in kinds or (must == "deepns" and "namespace" in kinds)):
+            k = must            # stratified sampling: this library carries the required kind of declaration
+        force_deep = k == "deepns"
+        if force_deep:
+            k = "namespace"
         if k == "func":
             lib["decls"].append(draw(function(lang, names, prefix=None)))
         elif k == "class":
@@ -284,7 +292,7 @@ def library(draw, lang=None, max_decls=8, with_python=None, with_lua=None, featu
                 ns["decls"].append(draw(function(lang, names, prefix=None, max_params=2)))
             # namespaces.rst: namespaces nest to any depth
             cur = ns
-            for _d in range(draw(st.sampled_from([0, 0, 1, 2]))):
+            for _d in range(draw(st.sampled_from([0, 0, 1, 2])) if not force_deep else draw(st.sampled_from([1, 2]))):
                 inner = dict(kind="namespace", name=names.fresh("inner"), decls=[])
                 for j in range(draw(st.integers(1, 2))):
                     inner["decls"].append(draw(function(lang, names, prefix=None, max_params=2)))
@@ -504,13 +512,25 @@ def sample(strategy, seed_value, n):
     return out[:n]
 
 
-def sample_libraries(seed_value, n, **kw):
-    libs = sample(library(**kw), seed_value, n)
-    return [(lib["library"], to_yaml(lib)) for lib in libs]
+STRATA = [None, "class", "namespace", "deepns", "overload", "default", "template", "generic", "enum", "struct", "classpair"]
 
 
 def sample_models(seed_value, n, **kw):
-    return sample(library(**kw), seed_value, n)
+    """n library models, stratified: the Hypothesis generate phase alone leaves whole kinds of declaration
+    out of a few dozen draws, so the libraries are drawn in groups, each group required to contain one kind
+    (None = no requirement), and interleaved."""
+    per = (n + len(STRATA) - 1) // len(STRATA)
+    groups = [sample(library(must=k, **kw), seed_value * 101 + j, per) for j, k in enumerate(STRATA)]
+    res = []
+    for i in range(per):
+        for g in groups:
+            if i < len(g):
+                res.append(g[i])
+    return res[:n]
+
+
+def sample_libraries(seed_value, n, **kw):
+    return [(lib["library"], to_yaml(lib)) for lib in sample_models(seed_value, n, **kw)]
 
 
 # ---------------------------------------------------------------------------
